@@ -336,6 +336,10 @@ func cmdCheck(args []string) int {
 			continue
 		}
 		failedNames = append(failedNames, name)
+		if s.Failed[0].R.Status == "error" {
+			toolErrors = append(toolErrors, "solvers rejected the verification condition of "+name+": "+trunc(s.Failed[0].R.Output, 200))
+			continue
+		}
 		if k := isKnown(name); k != nil {
 			knownHit = append(knownHit, k)
 			continue
@@ -424,6 +428,8 @@ func cmdCheck(args []string) int {
 	}
 	var fnames []string
 	var warnings []string
+	trustedSet := map[string]bool{}
+	var assumedPre []string
 	paths := 0
 	for _, fr := range frs {
 		fnames = append(fnames, fr.Key)
@@ -431,7 +437,18 @@ func cmdCheck(args []string) int {
 		for _, w := range fr.Warnings {
 			warnings = append(warnings, fr.Key+": "+w)
 		}
+		for _, t := range fr.Trusted {
+			trustedSet[t] = true
+		}
+		for _, rq := range fr.Requires {
+			assumedPre = append(assumedPre, fr.Key+": "+rq)
+		}
 	}
+	var trustedList []string
+	for t := range trustedSet {
+		trustedList = append(trustedList, t)
+	}
+	sort.Strings(trustedList)
 	type slow struct {
 		n string
 		s float64
@@ -469,6 +486,8 @@ func cmdCheck(args []string) int {
 		"known_findings_hit":       len(knownHit),
 		"known_findings_replayed":  knownNotes,
 		"unmodelled":               warnings,
+		"trusted_functions":        trustedList,
+		"assumed_preconditions":    assumedPre,
 		"not_decided":              pm.NotDecided,
 		"samples":                  samples,
 		"contracts_from":           eng.contractSources(),
